@@ -7,8 +7,8 @@ CHECKS = {
         'text': 'Static: Phase is canonical by construction (private field, single literal flowing into normalize, no field writes); '
                 'Phase::normalize proved to return a numerator in (-denom, denom] on every return path by a template-constraint abstract '
                 'interpreter; the 12 binary operator impls + Neg use their own operator in (self, rhs) order; the classification '
-                'predicates equal the reference predicates. Decides necessary structural conditions, not the value-level laws.',
-        'note': TB + 'Not decided: limit_denominator optimality, float round-trip; i64 overflow excluded by the quantifier.',
+                'predicates equal the reference predicates. Decides necessary structural conditions, not the value-level laws. limit_denominator is, step for step, CPython Fraction.limit_denominator: its transition functions (initial convergents, floor quotient, exit test, state update, k, the tie rule, both candidates) are extracted by symbolic execution on polynomials and compared with the reference modulo renaming.',
+        'note': TB + 'Not decided: that the reference algorithm (CPython Fraction.limit_denominator, which the statement names) returns the closest fraction; float round-trip; i64 overflow excluded by the quantifier.',
         'technique': 'encapsulation enumeration over HIR+MIR, abstract interpretation (template constraints), operator-impl sibling rule',
     },
     'C01': {
@@ -17,7 +17,7 @@ CHECKS = {
                 'rule-inside-rule exceptions); the inline matchers of fuse_gadgets / remove_gadget_pi establish the phase-gadget contract at the point a gadget is '
                 'recorded; a symbolic effect executor shows that each of the 18 rule bodies (incl. all 8 arms of add_edge_smart) produces exactly the effects of its '
                 'reference schema (phases as linear forms, sqrt2 exponents as polynomials, scalar factors as normalised sums); raw edge insertions only to fresh '
-                'vertices or under a not-connected test.',
+                'vertices or under a not-connected test. The fusion loop of fuse_gadgets removes all gadgets of a group but the first (hub and leaf), sums their leaf phases into the first leaf and multiplies the scalar by sqrt2^(-(num-1)(degree-1)) (exponent compared as a polynomial).',
         'note': TB + 'Schemas (refs/effects_ref.py) and contracts (refs/rules_req.py) are the trusted base, reviewed against DESIGN Appendix A.1. Not decided: that the schemas are true ZX identities, termination, panic freedom beyond existence, float tolerance.',
         'technique': 'guard dominance with must-fact contracts, facts-at-program-point extraction, symbolic effect summaries with polynomial/linear normal forms, freshness dataflow',
     },
@@ -26,7 +26,7 @@ CHECKS = {
                 'constant, sqrt2 power) that must equal the reference gate semantics and the independently extracted tensor-side descriptor of '
                 'Circuit::to_tensor; state/effect kinds have their sqrt2 powers; compound kinds go through the basic-gate expansion or the gadget (edge '
                 'discipline, scalar omega*2^2); PostSelect and Measure perform the same slot-keyed index-shift block; the qubit->output-slot map that SWAP '
-                'permutes is consumed as a gather in qubit order when outputs are finalised; every arm goes through the map; simplify-while-building applies only checked rules.',
+                'permutes is consumed as a gather in qubit order when outputs are finalised; every arm goes through the map; simplify-while-building applies only checked rules. No gate overwrites the diagram scalar (every update is multiplicative); the CCZ/Toffoli constant sequences multiply out to the gate and the parity-phase expansion has the exact phase polynomial for every arity 0..8 (shared with C15).',
         'note': TB + 'Not decided: equality of maps for gate sequences, local_ap_simp\'s effect, the CCZ gadget identity.',
         'technique': 'dispatch-table descriptors cross-checked between two implementations and a reference, sibling agreement, data-flow rule on the map, who-may-call',
     },
@@ -35,7 +35,7 @@ CHECKS = {
                 'in {H, ZPhase, CZ, CNOT, SWAP} (decides that clause of the statement completely); each m.add_row is mirrored by c1.add_row with identical '
                 'operands and the same m is written back; every proxy circuit is consumed into the output circuit on every path; update_frontier_circuit visits '
                 'all gates in order, lifts both operands through the frontier and pushes to the front; only checked rules; every ExtractError propagated; CLI '
-                'wiring parse -> to_graph -> simp -> to_circuit -> to_qasm -> print/write; configuration tables.',
+                'wiring parse -> to_graph -> simp -> to_circuit -> to_qasm -> print/write; configuration tables. single_sln_set selects an extractable row whenever one exists (argmin idiom: non-strict comparison against an attainable initial bound, among rows of weight one, solution set read from the selected row).',
         'note': TB + 'Not decided: that extraction succeeds and that the circuit is equivalent (gflow of run-time graphs, bitgauss convention), .expect in the CLI.',
         'technique': 'constant-argument emission rule over call-graph closure, mirrored-operation and proxy-consumption pairing, who-may-call, error-propagation rule, wiring/data-flow and configuration tables',
     },
@@ -90,7 +90,7 @@ CHECKS = {
                 'scalar equals the parameter-free scalar at the shifted phases for every presence pattern and assignment (exact algebra in Q(omega), finite phase '
                 'domains from the matchers enumerated); each rule handles a vertex\'s parities or its matcher requires them absent; Parity constructors and recognisers '
                 'agree (recogniser evaluated on the constructor literal), Expr::quadratic normal form, private fields, both back ends multiply scalar factors on '
-                'collision; both measurement arms attach the given or a fresh parity to their X effect.',
+                'collision; both measurement arms attach the given or a fresh parity to their X effect. The Measure arm removes the output slot and shifts the qubit->slot map keyed by the removed slot, exactly as PostSelect.',
         'note': TB + 'The parameter-free branch of each rule is the oracle for its boolean-variable branch. Not decided: Parity merge loop values, instantiation semantics, measurement circuits end to end.',
         'technique': 'symbolic effect summaries with pairing obligations, exact Q(omega)/Laurent-polynomial algebra over extracted scalar effects, constructor/recogniser evaluation on literals, sibling rules',
     },
@@ -116,7 +116,7 @@ CHECKS = {
                 'component tables, input/output order through an ordered map), on the Hadamard-edge marker (typ = H and is_edge, re-fused with a smart H edge, '
                 'validated to two neighbours, no raw edge insertion in the reader), on serde attribute pairing (parsed from json.rs), on the neutral markers '
                 '(vertex phase elided per type vs assumed when missing; the float factor written by the exact scalar branch is evaluated against the decoder\'s '
-                'multiply-guard), the hash back end delegates to the same conversion, and a phase at the denominator bound is encoded unchanged.',
+                'multiply-guard), the hash back end delegates to the same conversion, and a phase at the denominator bound is encoded unchanged. The polar (non-exact) arm of the scalar encoder does not round the angle (limit_denom None or >= 1e8).',
         'note': TB + 'Not decided: phase/scalar string and float encodings as values, isomorphism, tensor equality.',
         'technique': 'writer/reader table agreement through struct-literal provenance, marker agreement by evaluating the reader guard on the writer constant, attribute pairing on source text, two-site disjunctive rule',
     },
@@ -133,7 +133,7 @@ CHECKS = {
                 'Circuit::adjoint reverses and adjoints every gate; the number of gates pushed by push_basic_gates equals num_basic_gates for every '
                 'kind and arity 0..8, emitted kinds are basic, the constant CCZ/Toffoli sequences found in the source multiply out to the reference '
                 'matrices, the parity-phase expansion is a CNOT ladder; the five Add/AddAssign impls append in order; CircuitStats increments exactly '
-                'one size and one class counter per gate on every path.',
+                'one size and one class counter per gate on every path. The parity-phase expansion is evaluated for every arity 0..8 on an F2 phase-polynomial model: the CNOT network is undone and the only phase term is self.phase on the parity of all qubits (a correct CNOT ladder passes, a non-reversed uncompute does not).',
         'note': TB + 'Reference gate semantics in refs/gates.py. Not decided: equality of maps for whole circuits.',
         'technique': 'dispatch-table extraction and agreement, symbolic count of emissions per path, constant-sequence evaluation, path partition rule',
     },
@@ -189,7 +189,7 @@ CHECKS = {
 
 # dependency clauses (Check.include): rules of another property evaluated as part of this one, because a violation there breaks this property too
 DEPENDS = {
-    'C02': 'C01 (D1 guards, D2 inline matchers)', 'C03': 'C01 (D1 guards, D2 inline matchers)', 'C04': 'C01 (D3 effect schemas, D4 edge discipline)',
+    'C02': 'C01 (D1 guards, D2 inline matchers)', 'C03': 'C02 (circuit-to-diagram translation, with C01 D1/D2)', 'C04': 'C01 (D3 effect schemas, D4 edge discipline)',
     'C05': 'C01 (D1, D2) and C07', 'C06': 'C05 (with its dependencies) and C11', 'C07': 'C16', 'C08': 'C07 (with C16)', 'C12': 'C01 (D1, D2)', 'C13': 'C09',
 }
 for _k, _v in DEPENDS.items():
